@@ -88,7 +88,8 @@ def observed_index(c, r):
 
 
 def model_index(tab, c):
-    chain = "v1" if c["fn"] == "page_v1_dict" else ("v2cat" if c.get("use_cat") else "v2deref")
+    # (read_data_page_v2 sends RLE-encoded BOOLEAN values through the same branch as categorical codes)
+    chain = "v1" if c["fn"] == "page_v1_dict" else ("v2cat" if (c.get("use_cat") or c.get("rle_bool")) else "v2deref")
     d = tab["index"].get((chain, c["w"], bool(c.get("selfmade"))))
     if d is None:
         return None
